@@ -45,13 +45,13 @@ DENY_CALLS = {"system", "popen", "execl", "execle", "execlp", "execlpe", "execv"
 
 
 def budget(tier: str) -> Dict[str, Any]:
-    return {"shards": 16, "examples": 24 if tier == "quick" else 250, "shrink": False}
+    return {"shards": 16, "examples": 40 if tier == "quick" else 300, "shrink": False}
 
 
 @st.composite
 def strategy_case(draw: Any) -> Dict[str, Any]:
     if draw(st.booleans()):
-        case = draw(c12.strategy_case())
+        case = draw(c12.strategy_case(one_shot_weight=4))  # config / CLI / structure faults each have a rejection path of their own
         case["mode"] = "invalid"
         case["check_base"] = False
     else:
